@@ -117,7 +117,21 @@ pub fn transparency(input: &[u8], mode: &Mode, to: Fmt, class: &str, acc: &mut A
 /// Inputs aimed at the detection trials (part c).
 pub fn emphasised(seed: u64, idx: usize) -> (Vec<u8>, &'static str) {
     let mut rng = Rng::derive(seed, 0xc09c, idx as u64);
-    match idx % 6 {
+    match idx % 7 {
+        6 => {
+            // xt's own TOML output for documents with detection-hostile first keys
+            let mut cl = crate::gen::Classes::default();
+            let d = crate::c10::gen_doc_for_detection(&mut rng, &mut cl);
+            let mut feats = crate::spell::Feats::default();
+            if let Some(t) = crate::gen::tomlify(&d) {
+                let j = crate::spell::spell(Fmt::Json, &t, &mut rng, &mut feats, true);
+                let o = crate::run::run_slice(&j, Some(Fmt::Json), Fmt::Toml);
+                if o.verdict.is_ok() && !o.out.is_empty() {
+                    return (o.out, "own_toml_output");
+                }
+            }
+            (b"a = 1\n".to_vec(), "own_toml_output")
+        }
         0 => {
             // a MessagePack collection marker followed by anything from nothing to a complete value
             let mut feats = crate::spell::Feats::default();
@@ -385,6 +399,10 @@ pub fn run(ctx: &Ctx) -> i32 {
             acc.count("successful_inputs_checked_for_agreement");
             for (how, d, _) in &readers {
                 if ds != *d {
+                    if (ds == Some(Fmt::Yaml)) != (*d == Some(Fmt::Yaml)) && known::yaml_trial_read_ahead_shape(&bytes) && known::listed("C09", "C09-yaml-trial-depends-on-read-ahead") {
+                        acc.known("C09-yaml-trial-depends-on-read-ahead", || format!("input [{}]: slice detects {:?}, {} detects {:?}", preview(&bytes, 50), ds.map(|f| f.name()), how, d.map(|f| f.name())));
+                        break;
+                    }
                     acc.violation(Violation { sig: format!("slice detects {} but reader detects {}", ds.map(|f| f.name()).unwrap_or("none"), d.map(|f| f.name()).unwrap_or("none")), case: case_json(&bytes, &Mode::parse(how).unwrap_or(Mode::Slice), to, class), observed: format!("input translates successfully under detection; slice detected as {:?}, {} as {:?}", ds.map(|f| f.name()), how, d.map(|f| f.name())), expected: "the same format from a slice and from a reader".into() });
                     break;
                 }
